@@ -81,6 +81,15 @@ def cases(ctx):
             if ctx.mine():
                 count += 1
                 yield {"version": version, "steps": steps}
+    # dictionary payloads (string constants of the handler modules, vf.codedict) x every value type: a vocabulary that
+    # is normalised, a prefix that is stripped, a token that means something - for SOME type number - shows up here
+    candidates = histories.dictionary_payloads()[: ctx.pick(120, 600)]
+    for version in [None, *VERSIONS]:
+        for start in range(0, len(candidates), 20):
+            if ctx.mine():
+                count += 1
+                yield {"version": version, "steps": histories.dictionary_type_sweep(version, candidates[start:start + 20],
+                                                                                    list(range(0, 57)))}
     ctx.exhaustive["type-table-and-scale-cases"] = count
     for i in range(ctx.pick(400, 20000) // ctx.shard_count):
         version = [None, *VERSIONS][i % 6]
